@@ -8,7 +8,7 @@ META = {
             "(pending job, chunkBuffer, m-mapped file). TLC checks over every interleaving that each chunk handed to WriteChunk and not "
             "truncated reads back (ReadYourWrite), that references equal the final file positions, that cut() produces the promised file, "
             "that a clean restart iterates exactly the written, retained chunks in write order and that Truncate(n) removes only older "
-            "files - all modulo the narrowly characterised KF-C25-1, and without it when the triggering step is excluded (MC_nokf). One "
+            "files (the model includes the fix of KF-C25-1: Truncate keeps the newest file while no file is open for writing). One "
             "behaviour per distinct state (plus seeded walks of a larger alphabet) is replayed on a real ChunkDiskMapper whose worker "
             "goroutine is parked at the verifhook sites; after every step every live chunk is read back and compared byte for byte; at "
             "restarts the iteration sequence and per-chunk metadata are compared and the newest file is cut at every offset and reopened "
@@ -30,19 +30,13 @@ def run(ctx):
     q = ctx.quick
     with ThreadPoolExecutor(max_workers=4) as ex:
         f_mc = ex.submit(ctx.tlc, "headchunks", "HeadChunks", "MC_quick.cfg" if q else "MC_big.cfg", workers=4, timeout=1800)
-        # the raw invariants hold when the KF-C25-1 trigger (Truncate deleting every file under a pending cut job) is excluded
-        f_nokf = ex.submit(ctx.tlc, "headchunks", "HeadChunks", "MC_nokf.cfg", workers=4, timeout=1800)
-        # ... and the raw CutSeqAgrees must fail when it is allowed (the KF disjunct is not vacuous)
-        f_raw = ex.submit(ctx.tlc, "headchunks", "HeadChunks", "MC_raw.cfg", workers=2, timeout=600, allow_violation=True)
         f_sim = ex.submit(ctx.tlc, "headchunks", "HeadChunks", "SIM.cfg", simulate=(25 if q else 500), depth=90, workers=4,
                           timeout=(300 if q else 1500))
-        mc, nokf, raw, sim = f_mc.result(), f_nokf.result(), f_raw.result(), f_sim.result()
-    if raw.violated != "CutSeqAgrees":
-        raise vlib.Infra("MC_raw: expected CutSeqAgrees to fail in the model (KF-C25-1 shape), got %r" % raw.violated)
-    for r in (mc, nokf, sim):
+        mc, sim = f_mc.result(), f_sim.result()
+    for r in (mc, sim):
         ctx.account(r)
-    ctx.log("MC: %d generated / %d distinct, %d behaviours (%.0fs); MC_nokf %d distinct (%.0fs); SIM %d walks"
-            % (mc.generated, mc.distinct, len(mc.emitted), mc.wall, nokf.distinct, nokf.wall, len(sim.emitted)))
+    ctx.log("MC: %d generated / %d distinct, %d behaviours (%.0fs); SIM %d walks"
+            % (mc.generated, mc.distinct, len(mc.emitted), mc.wall, len(sim.emitted)))
     states = list(mc.emitted)
     if not q:
         # 22k states: replay a seeded third of them (the quick tier replays every state of its smaller model)
@@ -59,7 +53,7 @@ def run(ctx):
         raise vlib.Infra("harness C25 replay did not finish (no done record):\n%s" % gr.out[-3000:])
     ctx.assumptions += [
         "bounded model: <=5 chunks exhaustively (7 by simulation), queue size 2-3, write buffer 64 KiB, chunks either tiny or larger than the buffer",
-        "ReadYourWrite / PositionsAgree / CutSeqAgrees / IterComplete are checked as Prop \\/ KF-C25-1 (and raw with the trigger excluded)",
+        "KF-C25-1 (cut() sequence mismatch after Truncate deleted every file under a queued job) is fixed; the model transcribes the fixed Truncate and NoMismatch is an invariant",
         "torn-tail sweep: offsets 4..7 (partial file header) excluded; the whole newest file is dropped by DeleteCorrupted after a CorruptionErr",
     ]
     return ctx.finish(rule="one behaviour per distinct state of the exhaustive model + seeded walks; after every step all live chunks are read "
